@@ -152,6 +152,53 @@ theorem C20_tree_complete_modulo_path (f : NcFile) (hnames : (f.root.vars.map Va
         (v.attrs.filter fun a => a.1 ≠ "path") true ∈ netcdfEntries f :=
   (tree_complete_filtered f hnames).2
 
+/-- **nothing else (soundness)**, no guard: every entry of the handler's dataset is the dataset / a group of the file with
+    its own dimensions and attributes (minus `path` inside groups), a root variable of the file — with the file's type,
+    shape, attributes, its own dimension tuple qualified by the root, lazy unless it is named like a root dimension — or a
+    variable of a group of the file with the file's type, shape, nearest-scope dimension names and attributes (minus
+    `path`).  The handler invents no variable, type, shape, dimension or attribute. -/
+theorem C20_tree_sound (f : NcFile) (e : Entry) (he : e ∈ netcdfEntries f) :
+    (e = .group [] f.root.dims f.root.attrs ∨
+      ∃ g ∈ f.groups, e = .group g.path g.dims (g.attrs.filter fun a => a.1 ≠ "path")) ∨
+    (∃ v ∈ f.root.vars,
+      e = .var [] v.name v.ty v.shape (v.dims.map (resolveDim f [])) v.attrs (!isCoord f v)) ∨
+    (∃ g ∈ f.groups, ∃ v ∈ g.vars,
+      e = .var g.path v.name v.ty v.shape (v.dims.map (resolveDim f g.path))
+        (v.attrs.filter fun a => a.1 ≠ "path") true) :=
+  entries_sound f e he
+
+/-- **one variable per file variable, exactly**: listed by (group path, name), the variable entries of the handler's
+    dataset are a permutation of the file's variables — none missing, none twice, none invented (a root variable named
+    like a root dimension is moved to the end, not duplicated).  Hypotheses are netCDF's own invariants: names unique
+    among the root variables and among the root dimensions.  With `C20_tree_complete_partial` (what each entry holds)
+    this is the clause "one variable per file variable" in full. -/
+theorem C20_tree_one_per_variable (f : NcFile) (hnames : (f.root.vars.map Var.name).Nodup)
+    (hdims : (f.root.dims.map Prod.fst).Nodup) :
+    ((netcdfEntries f).filterMap Entry.varKey).Perm (fileVarKeys f) ∧
+    ((netcdfEntries f).filterMap Entry.varKey).length
+      = f.root.vars.length + (f.groups.map fun g => g.vars.length).sum :=
+  ⟨varKeys_perm f hnames hdims, by
+    rw [(varKeys_perm f hnames hdims).length_eq]
+    simp [fileVarKeys, List.length_flatMap]⟩
+
+/-- **clauses (1)–(4) as one statement, under the guard of finding C20.reserved_attribute_path**: the variable entries of the
+    handler's dataset are, up to order, EXACTLY the list the property demands — one entry per file variable, under its
+    group's path, with the file's type, shape and attributes, each dimension named after the nearest enclosing
+    declaration, eager iff it is a root variable named like a root dimension.  (Order: coordinate variables are moved to
+    the end of the root; `fh-netcdf` compares the order too.) -/
+theorem C20_tree_exact_partial (f : NcFile) (hnames : (f.root.vars.map Var.name).Nodup)
+    (hdims : (f.root.dims.map Prod.fst).Nodup) (hp : NoPathAttr f) :
+    ((netcdfEntries f).filter Entry.isVar).Perm (demandedVarEntries f) := by
+  rw [demanded_eq_expected f (fun g hg => (hp g hg).2)]
+  exact varEntries_perm f hnames hdims
+
+/-- … and without the guard: exactly that list with the attribute `path` removed inside groups (what is lost in the
+    finding's class is that one attribute and nothing else, for the whole tree at once) -/
+theorem C20_tree_exact_modulo_path (f : NcFile) (hnames : (f.root.vars.map Var.name).Nodup)
+    (hdims : (f.root.dims.map Prod.fst).Nodup) :
+    ((netcdfEntries f).filter Entry.isVar).Perm (expectedVarEntries f) :=
+  varEntries_perm f hnames hdims
+
 /-- groups: every group of the file appears with its own dimensions and attributes -/
 theorem C20_tree_groups (f : NcFile) :
     Entry.group [] f.root.dims f.root.attrs ∈ netcdfEntries f ∧
@@ -514,6 +561,23 @@ example : Entry.var [] "x" "i2" [6, 4] [([], "y"), ([], "x")] [] false ∈ netcd
     { exFile with root := { exFile.root with vars := [{ name := "x", ty := "i2", shape := [6, 4], dims := ["y", "x"], attrs := [] }] } } := by
   decide
 example : (exFile.root.vars.map Var.name).Nodup := by decide
+/-- the example file has 5 variables; the handler's dataset lists them once each, the coordinate variable `x` last -/
+example : (exFile.root.dims.map Prod.fst).Nodup ∧
+    (netcdfEntries exFile).filterMap Entry.varKey
+      = [([], "v"), (["A"], "a"), (["A", "A1"], "a1"), (["B"], "u"), ([], "x")] ∧
+    fileVarKeys exFile = [([], "v"), ([], "x"), (["A"], "a"), (["A", "A1"], "a1"), (["B"], "u")] := by decide
+/-- the demanded list of the example file, and the handler's variable entries (the coordinate variable last) -/
+example : demandedVarEntries exFile =
+    [.var [] "v" "i2" [4, 6] [([], "x"), ([], "y")] [] true, .var [] "x" "f4" [4] [([], "x")] [("units", "s:m")] false,
+     .var ["A"] "a" "i4" [2, 6] [(["A"], "x"), ([], "y")] [] true, .var ["A", "A1"] "a1" "i4" [3] [(["A", "A1"], "x")] [] true,
+     .var ["B"] "u" "i4" [4] [([], "x")] [] true] ∧
+    ((netcdfEntries exFile).filter Entry.isVar).length = 5 := by decide
+/-- on the finding's witness the demanded and the served lists differ (so the guard of `C20_tree_exact_partial` is needed) -/
+example : demandedVarEntries pathWitness ≠ expectedVarEntries pathWitness := by decide
+/-- the exactness statement can fail: with the hypothesis on dimension names dropped (a description no netCDF file
+    has: `x` declared twice in the root) the coordinate variable would be listed twice -/
+example : ((netcdfEntries { exFile with root := { exFile.root with dims := [("x", 4), ("x", 4)] } }).filterMap
+    Entry.varKey).count ([], "x") = 2 := by decide
 example : lazyGet (fun _ => .ok ⟨[2], [5, 6]⟩) id [4] [4] (.slices [(1, 3, 1)]) = .ok ⟨[2], [5, 6]⟩ := by rfl
 example : lazyGetPinned (fun _ => .ok ⟨[2], [5, 6]⟩) id [4] (.slices [(1, 3, 1)]) = .error .reshape := by rfl
 example : lazyGet (fun _ => .ok ⟨[], [9]⟩) id [] [] (.scalar .newaxis) = .ok ⟨[1], [9]⟩ := by rfl
